@@ -304,6 +304,9 @@ def subdaily_index(case):
 
 def run_subdaily(case):
     from opendsm.eemeter.models.daily.data import DailyBaselineData, DailyReportingData
+    if case.get("after"):
+        # a meter processed earlier in the same process (portfolio sequence): its processing must leave nothing behind
+        run_subdaily(case["after"])
     tz = case["tz"]
     idx = subdaily_index(case)
     vals = [Fraction(v) for v in case["values"]]
@@ -488,13 +491,17 @@ def run(ctx):
     pairs = [("America/Phoenix", "America/Denver", "2019-02-15", 278), ("America/Regina", "America/Chicago", "2019-02-15", 278),
              ("Australia/Brisbane", "Australia/Sydney", "2019-06-01", 364)]
     for za, zb, d0, nd in (pairs[:1] + [rng.choice(pairs[1:])] if not thorough else pairs):
+        prev = None
         for tzname in (za, zb):
             st = pd.Timestamp(d0, tz=tzname)
             en = (pd.Timestamp(d0) + pd.Timedelta(days=nd)).tz_localize(tzname)
             n_h = int((en - st) / pd.Timedelta(hours=1))
             case = dict(kind="subdaily", tz=tzname, freq=60, start=st.isoformat(), n=n_h, values=[str(Fraction(rng.randrange(1, 64), 8)) for _ in range(n_h)],
                         missing=[], how="nan", electric=True, entry="from_series", cls="baseline", gap_style="portfolio_sequence")
+            if prev is not None:
+                case["after"] = prev
             one_case(case, res, sigs, lines, metas)
+            prev = {k: v for k, v in case.items() if k != "after"}
     n = int((96 if not thorough else 1200) * scale)
     for i in range(n):
         gen = [gen_billing, gen_subdaily, gen_subdaily, gen_daily][i % 4] if i % 12 != 11 else gen_billing
@@ -556,7 +563,9 @@ LEVEL_TEXT = ("Lean 4 theorems over exact rationals about the interval form of a
 LEVEL_NOTE = ("Hand model (closed interval form, not a port of the pandas calls); local-day boundaries are computed by the harness (zoneinfo) and "
               "are an input of the model; the read-calendar glue of from_series/_compute_meter_value_df (trimming, final-NaN convention, granularity "
               "detection) is validated by T2 only. Float results are compared with the exact rationals at 1e-9 relative.")
-TECHNIQUE = "Lean 4 proof (telescoping-overlap induction over day boundaries, exact rationals) + differential correspondence with the data classes"
+TECHNIQUE = ("Lean 4 proof (telescoping-overlap induction over day boundaries, exact rationals; the row masks of clean_billing_data / "
+             "downsample_and_clean_daily_data translated from the source on every run are proved equal to the model's rules) + differential "
+             "correspondence with the data classes")
 ASSUMPTIONS = ["local midnights supplied by the harness (IANA database via pandas) are the day boundaries the data classes use",
                "values are dyadic rationals so that float sums are exact to 1e-9",
                "temperature covers the whole read span; regular (inferable-frequency) billing calendars are not generated"]
